@@ -30,7 +30,7 @@ ASSUMPTIONS = [
     "legacy mirror fields in the record are 8-bit; values above 255 are not required to be mirrored",
 ]
 REQUIRED_LABELS = {
-    "quick": ["edit_history", "sample_index_gt0", "env_nondefault", "editor_fields", "effect", "note_map", "ctx_synth", "ctx_project", "legacy_signature", "legacy_no_envelopes", "odd_data_length", "points_ge_256", "one_sample_object_in_several_slots"],
+    "quick": ["edit_history", "sample_index_gt0", "env_nondefault", "editor_fields", "effect", "note_map", "ctx_synth", "ctx_project", "legacy_signature", "legacy_no_envelopes", "odd_data_length", "points_ge_256", "one_sample_object_in_several_slots", "failed_save_in_the_past"],
     "thorough": ["edit_history", "sample_index_gt0", "env_nondefault", "editor_fields", "effect", "note_map", "ctx_synth", "ctx_project", "legacy_signature", "legacy_no_envelopes", "odd_data_length", "points_ge_256", "index_ge_256", "slot_127"],
 }
 
@@ -261,6 +261,10 @@ def check_sampler(ctx, ms):
             container = Project()
             container.attach_module(mod)
             inp = True
+        if len(repr(ms)) % 3 == 0 and build.failed_save_in_past(container, len(repr(ms)) // 3):
+            # the library once failed to write this very object (a field did not fit its file field and
+            # was corrected since): it writes it completely now
+            labels.add("failed_save_in_the_past")
         s0 = snapshot.snap_module(mod, in_project=inp)
         data = container.read()
         check_file(data, context, s0["payload"])
